@@ -60,8 +60,15 @@ CONSTANTS R, M, Q, Mode, WaitOnSignal, MaxSignals, MayFail,
           Untrapped,           \* TRUE: SIGHUP / SIGQUIT / SIGKILL may arrive (default action at any moment)
           SlowSink,            \* TRUE: a write to the sink may take time (FlushBegin .. FlushEnd) or never end
           Timeouts,            \* TRUE: the interrupt timeout / the 3 s timer of the error path exist (FALSE: negative control)
-          Exempt               \* causes of an exit that are allowed to lose data: {"second", "timeout", "early", "untrapped"};
+          Exempt,              \* causes of an exit that are allowed to lose data: {"second", "timeout", "early", "untrapped"};
                                \* a smaller set is a negative control (that cause really does lose data)
+          Hang,                \* TRUE: a shot may hang (a server that does not answer, a gun that does not watch its context):
+                               \* the instance never finishes, Engine.Wait() never returns, the exit is a timer's
+          PatientTimers,       \* TRUE: the timers (3 s / 30 s) are long against every step the program takes by itself: they
+                               \* fire only when nothing but a hung shot / a blocked sink / a parked Report is left to wait for
+          AggStop              \* what stops the aggregator: "run" = its context IS the run context (as coded: a stop from
+                               \* outside makes it drain, flush and close AT ONCE); "instances" = a context of its own that
+                               \* is cancelled only in checkAllInstancesAreFinished (negative control, seeded change C06-12)
 
 VARIABLES mpc,      \* main: "start" (signal.Notify not yet called) | "await" | "sigwait" | "sigjoin" | "errwait" | "exited"
           sigs,     \* SIGINT/SIGTERM delivered so far
@@ -71,7 +78,7 @@ VARIABLES mpc,      \* main: "start" (signal.Notify not yet called) | "await" | 
           wpc,      \* await goroutine: "await" | "cancelled" (runCancel called) | "done" (wg.Done)
           failed,   \* the one component error of this run was raised
           rdone,    \* run context done
-          ipc, made, late,   \* instances: "run"|"blocked"|"fin", reports made, made its in-flight report after rdone
+          ipc, made, late,   \* instances: "run"|"blocked"|"hung"|"fin", reports made, made its in-flight report after rdone
           nq, nb, nd, dropped, apc, closed, result,   \* aggregator (counters), as in Aggregator.tla
           flushing, \* the Run goroutine is inside a write to the sink: part of it is on disk, the last line may be torn
           stopCount,\* reports that had returned when the run context became done
@@ -145,15 +152,7 @@ Joined == /\ ~exited /\ mpc \in {"sigjoin", "errwait"} /\ wpc = "done"
 SecondSignal == /\ ~exited /\ mpc \in {"sigwait", "sigjoin"} /\ sigs < MaxSignals
                 /\ sigs' = sigs + 1 /\ Die("second")
                 /\ UNCHANGED <<root, engV, poolV, wpc, failed, rdone, stopCount, instV, aggV, lateLost>>
-\* "Interrupt timeout exceeded" (30 s after SIGINT, 3 s after SIGTERM)
-InterruptTimeout == /\ ~exited /\ Timeouts /\ mpc \in {"sigwait", "sigjoin"}
-                    /\ Die("timeout")
-                    /\ UNCHANGED <<sigs, root, engV, poolV, wpc, failed, rdone, stopCount, instV, aggV, lateLost>>
-\* "Engine tasks timeout exceeded." (time.AfterFunc(3 s) of the error path)
-TasksTimeout == /\ ~exited /\ Timeouts /\ mpc = "errwait"
-                /\ Die("timeout")
-                /\ UNCHANGED <<sigs, root, engV, poolV, wpc, failed, rdone, stopCount, instV, aggV, lateLost>>
-
+\* (InterruptTimeout / TasksTimeout: defined below, after System - with PatientTimers they refer to it)
 \* error path of awaitPandoraTermination: the engine failed on its own, main has cancelled and is in
 \* pandora.Wait() under a 3 s timer.  A FIRST signal that arrives now only lands in the `sigs` channel: nobody
 \* reads it, the flush of the other tasks completes.  (Signal first, engine error afterwards is Signal1 ->
@@ -225,6 +224,12 @@ Finish(i) == /\ ~exited /\ ipc[i] = "run" /\ (made[i] = M \/ rdone)
              /\ ipc' = [ipc EXCEPT ![i] = "fin"]
              /\ UNCHANGED <<mainV, engV, poolV, wpc, failed, rdone, stopCount, made, late, aggV, lateLost>>
 
+\* a shot that does not come back (not within the timers): the instance neither reports nor finishes any more -
+\* also not when the run context is cancelled (the gun does not watch it)
+Hangs(i) == /\ ~exited /\ Hang /\ ipc[i] = "run" /\ made[i] < M
+            /\ ipc' = [ipc EXCEPT ![i] = "hung"]
+            /\ UNCHANGED <<mainV, engV, poolV, wpc, failed, rdone, stopCount, made, late, aggV, lateLost>>
+
 (* ------------------------------------------------------------------ aggregator (Aggregator.tla on counters) *)
 \* while a write to the sink lasts the Run goroutine does nothing else
 aggFrame == ~exited /\ UNCHANGED <<mainV, engV, poolV, wpc, failed, rdone, stopCount, instV, lateLost>>
@@ -232,7 +237,9 @@ Dequeue    == ~flushing /\ apc \in {"loop", "drain"} /\ nq > 0 /\ nq' = nq - 1 /
               /\ UNCHANGED <<nd, dropped, apc, closed, result, flushing>> /\ aggFrame
 Flush      == ~flushing /\ apc \in {"loop", "drain"} /\ nb > 0 /\ nd' = nd + nb /\ nb' = 0
               /\ UNCHANGED <<nq, dropped, apc, closed, result, flushing>> /\ aggFrame
-SeeDone    == ~flushing /\ apc = "loop" /\ rdone /\ apc' = "drain"
+\* the aggregator's context: the run context itself - or (negative control) one that ends only with the instances
+AggCtxDone == IF AggStop = "run" THEN rdone ELSE wpc # "await"
+SeeDone    == ~flushing /\ apc = "loop" /\ AggCtxDone /\ apc' = "drain"
               /\ UNCHANGED <<nq, nb, nd, dropped, closed, result, flushing>> /\ aggFrame
 DrainEnd   == ~flushing /\ apc = "drain" /\ nq = 0 /\ apc' = "flush"
               /\ UNCHANGED <<nq, nb, nd, dropped, closed, result, flushing>> /\ aggFrame
@@ -252,6 +259,23 @@ Return     == ~flushing /\ apc = "ret" /\ result' = dropped /\ apc' = "done"
               /\ UNCHANGED <<nq, nb, nd, dropped, closed, flushing>> /\ aggFrame
 AggStep == Dequeue \/ Flush \/ SeeDone \/ DrainEnd \/ FinalFlush \/ FlushBegin \/ FlushEnd \/ Close \/ Return
 
+\* everything the program does by itself is weakly fair; signals, failures and the END of a slow write are not
+\* (a sink may block for ever); the timers are
+System == \/ Notify \/ RecvErr \/ Joined \/ EngineReturn \/ PoolReturn \/ AllFinished \/ AwaitDone
+          \/ (\E i \in I : Report(i) \/ ReportBlocks(i) \/ Unblock(i) \/ Finish(i))
+          \/ Dequeue \/ Flush \/ SeeDone \/ DrainEnd \/ FinalFlush \/ Close \/ Return
+\* the timers of main (cli.go): with PatientTimers they fire only when the program has nothing left to do by itself
+\* "Interrupt timeout exceeded" (30 s after SIGINT, 3 s after SIGTERM)
+InterruptTimeout == /\ ~exited /\ Timeouts /\ mpc \in {"sigwait", "sigjoin"}
+                    /\ PatientTimers => ~ENABLED System
+                    /\ Die("timeout")
+                    /\ UNCHANGED <<sigs, root, engV, poolV, wpc, failed, rdone, stopCount, instV, aggV, lateLost>>
+\* "Engine tasks timeout exceeded." (time.AfterFunc(3 s) of the error path)
+TasksTimeout == /\ ~exited /\ Timeouts /\ mpc = "errwait"
+                /\ PatientTimers => ~ENABLED System
+                /\ Die("timeout")
+                /\ UNCHANGED <<sigs, root, engV, poolV, wpc, failed, rdone, stopCount, instV, aggV, lateLost>>
+
 \* Exit freezes everything: every action is guarded by ~exited (kept inside the actions so that TLC's
 \* coverage reports them separately)
 Next == \/ Notify \/ EarlySignal \/ UntrappedSignal
@@ -262,15 +286,11 @@ Next == \/ Notify \/ EarlySignal \/ UntrappedSignal
         \/ \E i \in I : ReportBlocks(i)
         \/ \E i \in I : Unblock(i)
         \/ \E i \in I : Finish(i)
+        \/ \E i \in I : Hangs(i)
         \/ Dequeue \/ Flush \/ SeeDone \/ DrainEnd \/ FinalFlush \/ FlushBegin \/ FlushEnd \/ Close \/ Return
 
 Spec == Init /\ [][Next]_vars
 
-\* everything the program does by itself is weakly fair; signals, failures and the END of a slow write are not
-\* (a sink may block for ever); the timers are
-System == \/ Notify \/ RecvErr \/ Joined \/ EngineReturn \/ PoolReturn \/ AllFinished \/ AwaitDone
-          \/ (\E i \in I : Report(i) \/ ReportBlocks(i) \/ Unblock(i) \/ Finish(i))
-          \/ Dequeue \/ Flush \/ SeeDone \/ DrainEnd \/ FinalFlush \/ Close \/ Return
 LiveSpec == /\ Init /\ [][Next]_vars
             /\ WF_vars(Notify) /\ WF_vars(RecvErr) /\ WF_vars(Joined) /\ WF_vars(EngineReturn) /\ WF_vars(PoolReturn)
             /\ WF_vars(AllFinished) /\ WF_vars(AwaitDone)
@@ -284,7 +304,7 @@ TypeOK == /\ mpc \in {"start", "await", "sigwait", "sigjoin", "errwait", "exited
           /\ exited = (mpc = "exited")
           /\ cause \in {"", "second", "timeout", "early", "untrapped"}
           /\ forced = (cause # "")
-          /\ \A i \in I : ipc[i] \in {"run", "blocked", "fin"}
+          /\ \A i \in I : ipc[i] \in {"run", "blocked", "hung", "fin"}
 
 \* THE property: an exit leaves a flushed, closed result with a whole last line in which
 \* lines + counted drops = reports made until the stop (+ the in-flight ones that still made it)
@@ -294,6 +314,16 @@ ExitComplete ==
         /\ apc = "done" /\ closed /\ nb = 0 /\ ~flushing
         /\ CompleteCounts(nd, result, Total - lateLost)
         /\ CompleteBetween(nd, result, stopCount, Total)
+\* ... and of the exempt causes a TIMER does not excuse everything: when the process gives up waiting for a hung
+\* shot (or a parked Report) while the sink works, the aggregator - stopped by the run cancel itself, not by the end of
+\* the instances - has long drained, flushed and closed: everything reported before the stop is in the result.
+\* Only a write that does not end (flushing) excuses a timer exit with data still in memory.
+TimeoutExitFlushed ==
+    (exited /\ cause = "timeout" /\ PatientTimers /\ ~flushing) =>
+        /\ apc = "done" /\ closed /\ nb = 0
+        /\ CompleteBetween(nd, result, stopCount, Total)
+\* such an exit is reachable with a hung shot and reports made before the stop (the rule is not vacuous)
+HangTimeoutReachable == ~(exited /\ cause = "timeout" /\ (\E i \in I : ipc[i] = "hung") /\ stopCount > 0 /\ nd = stopCount)
 \* a forced exit may cut the result anywhere, but it invents nothing: what is on disk (and counted as dropped, if
 \* the aggregator got that far) are reports that were made
 ForcedBounded == exited => nd + nb + nq + dropped <= Total /\ nd + (IF result >= 0 THEN result ELSE 0) <= Total
